@@ -421,6 +421,7 @@ def tab_cli(run):
     # 4. default format and derived file names
     tab_cli_defaults(run, pc, table)
     tab_cli_derive(run)
+    tab_cli_derive_name(run)
     # 5. print xor write per group
     tab_cli_groups(run)
 
@@ -865,6 +866,46 @@ def tab_cli_derive(run):
               "derive_output_filename can return a name without passing the `!= input_filename` edge")
 
 
+def tab_cli_derive_name(run, R="TAB-cli"):
+    """the derived output name is the first input's path with its extension replaced by the path library (`set_extension` /
+    `with_extension`: the extension of the last component only), and that path is what is returned"""
+    from rules_sym import deep
+    f = run.anchor(R, "driver::derive_output_filename")
+    if not f:
+        return
+    inp = [l for l in range(1, f.arg_count + 1) if re.search(r"^&(std::string::String|str)$", f.local_ty(l) or "")]
+    sets = [(bi, t) for bi, t in f.calls() if re.search(r"std::path::(PathBuf::set_extension|Path::with_extension)$", t.get("callee") or "")]
+    ok = len(inp) == 1 and len(sets) == 1
+    why = "%d call(s) of set_extension/with_extension" % len(sets)
+    if ok:
+        bi, t = sets[0]
+        recv, ext = deep(f, t["args"][0], 6), t["args"][1]
+        ok = recv == "P%d" % inp[0] or recv.endswith("(P%d)" % inp[0])
+        why = "the path whose extension is replaced is `%s`, not the input file name" % recv
+        if ok:
+            sw = T.enum_switch_arms(f, "OutputFormat")
+            el = op_local(ext)
+            ok = bool(sw) and el is not None and value_depends_on_switch(f, ext, sw[0][0])
+            why = "the new extension does not come from the match on the output format"
+    if ok:
+        pays = [deep(f, st["rv"]["ops"][0], 10) for bi, si, st in f.stmts() if st["k"] == "assign" and st["place"]["l"] == 0 and not st["place"]["p"]
+                and st["rv"]["k"] == "agg" and st["rv"].get("variant") == "Ok"]
+        ok = bool(pays) and all(re.search(r"(Path|PathBuf|OsString|OsStr)::\w+\(", p_) and "fmt::format(" not in p_ and " Add " not in p_ for p_ in pays)
+        why = "the name returned (%s) is not the path whose extension was replaced" % [p_[:80] for p_ in pays]
+    run.check(ok, R, R + "|derive-name", f.loc(), "the derived name is the input path after the path library replaced its extension",
+              "derive_output_filename: %s: a dot in a directory name, or an input without extension, would give a name in another directory or without the documented extension" % why)
+
+
+def value_depends_on_switch(f, op, switch_block):
+    """is the operand a local all of whose definitions sit in blocks dominated by the switch (one per arm)?"""
+    l = op_local(op)
+    if l is None:
+        return False
+    root = f.copy_root(l)
+    ds = f.full_defs(root)
+    return len(ds) >= 2 and all(f.dominates(switch_block, d[1]) and d[1] != switch_block for d in ds)
+
+
 def tab_cli_groups(run):
     R = "TAB-cli"
     f = run.anchor(R, "driver::assemble_with_command")
@@ -1247,3 +1288,35 @@ def fmt_profile(run):
             else:
                 run.ok(R, key + "|%d" % st["span"]["line"] if False else key, f.loc(st["span"]), "%s: end-of-data test compares a plain position with len()" % f.id)
     run.floor(R, "end-of-data tests in formatters", n, 8)
+
+
+def bit_source(run, R="TAB-fmt"):
+    """sibling agreement of the formatters: every formatter obtains the assembled bits by asking the BitVec for single bits
+    (`read_bit`, which answers 0 past the end -- the zero padding of the last granule), its length and its blocks/spans, or by
+    delegating to the sibling the audited wrapper table names.  A formatter that gets its data any other way (another
+    formatter's bytes, the backing integer) deviates from all its siblings and from what was audited."""
+    prog = run.prog
+    spec = run.table("formats")
+    allowed = re.compile(r"util::bitvec::BitVec::(len|read_bit|get_blocks)$")
+    n = 0
+    for f in prog.real_fns():
+        if f.kind != "AssocFn" or not re.search(r"(bitvec_format|bitvec_format_annotated|bitvec_format_tcgame|bitvec_format_addrspan)::<impl util::bitvec::BitVec>::format_\w+$", f.id):
+            continue
+        name = f.id.rsplit("::", 1)[-1]
+        n += 1
+        bad = []
+        for bi, t in f.calls():
+            tys = t.get("arg_tys", [])
+            if not tys or not re.fullmatch(r"&(mut )?util::bitvec::BitVec", tys[0]):
+                continue
+            c = t.get("resolved") or t.get("callee") or "?"
+            if allowed.search(c):
+                continue
+            w = spec["wrappers"].get(name)
+            if w and c.endswith("::" + w[0]):
+                continue
+            bad.append(c.rsplit("::", 1)[-1])
+        run.check(not bad, R, "%s|bit-source|%s" % (R, name), f.loc(),
+                  "%s reads the assembled bits through read_bit/len/get_blocks or its audited wrapper target" % name,
+                  "%s obtains its data through %s: every sibling formatter reads single bits with read_bit (zero past the end), so the padding of the last granule and the bit order are not what was audited" % (name, sorted(set(bad))))
+    run.floor(R, "formatters with a bit source", n, 15)
